@@ -14,7 +14,11 @@ run_one() {
   V=$(mktemp -d /tmp/seedverif.XXXXXX)
   cp -r /verif/sa /verif/selftest /verif/known_findings.json "$V/" ; mkdir -p "$V/evidence"
   line="$seed"
-  for id in "$@"; do
+  own=${seed%%-*}
+  ids="$@"
+  # OWN_ONLY=1: only the check of the property the change was written against (fast); default: every claimed check
+  [ -n "${OWN_ONLY:-}" ] && ids="$own"
+  for id in $ids; do
     ( cd "$V" && /venv/bin/python -B -m sa.cli $id --repo "$T" > "$V/out.$id" 2>&1 ); rc=$?
     rule=$(grep -o 'rule=[A-Za-z0-9_-]*' "$V/out.$id" | head -1 | cut -d= -f2)
     line="$line $id:$rc:${rule:--}"
